@@ -23,6 +23,7 @@ TClose == IsOp("close") /\ Close(Ev.s)
 TOpen == IsOp("open") /\ Open(Ev.s)
 \* cancel(): the pending receive will complete with aborted (checked at RecvAborted)
 TCancel == IsOp("cancel") /\ Cancel(Ev.s)
+TMove == IsOp("move") /\ UNCHANGED uvars
 TSndBuf == IsOp("sndbuf") /\ SetSndBuf(Ev.s, Ev.n)
 TDf == IsOp("df") /\ SetDf(Ev.s, Ev.v)
 \* a send_to with a writable-wait pending: one extra (silent) step aborts the wait first
@@ -53,7 +54,7 @@ TEnd == /\ IsEvent("End") /\ phase = "run" /\ phase' = "idle" /\ Quiescent /\ UN
 TThrow == IsEvent("Throw") /\ Run /\ UNCHANGED uvars
 TEndThrown == IsEvent("EndThrown") /\ phase = "run" /\ phase' = "idle" /\ UNCHANGED uvars
 TWireU == IsEvent("WireU") /\ Run /\ UNCHANGED uvars
-TNext == TWireU \/ TSupersede \/ TStartWaitW \/ TWritable \/ TWaitWAborted \/ TRecvLate \/ TThrow \/ TEndThrown \/ TCfg \/ TAdv \/ TBind \/ TClose \/ TOpen \/ TCancel \/ TSndBuf \/ TDf \/ TSend \/ TArrive \/ TLost
+TNext == TMove \/ TWireU \/ TSupersede \/ TStartWaitW \/ TWritable \/ TWaitWAborted \/ TRecvLate \/ TThrow \/ TEndThrown \/ TCfg \/ TAdv \/ TBind \/ TClose \/ TOpen \/ TCancel \/ TSndBuf \/ TDf \/ TSend \/ TArrive \/ TLost
          \/ TStartRecv \/ TReady \/ TRecv \/ TRecvAborted \/ TEnd
 TSpec == TInit /\ [][TNext]_tvars
 
